@@ -60,6 +60,66 @@ theorem assign_is_per_row (rd : List α → List α → α) (cs xs : List (List 
 example : assign (α := Int) (fun c x => (c.headD 0 - x.headD 0) * (c.headD 0 - x.headD 0))
     [[0], [10]] [[1], [9], [5]] = [(0, 1), (1, 1), (0, 25)] := by decide
 
+/-- **every calling form of `predict` / `transform` is the same per-row arg-min**: predicting a
+matrix gives, row by row, what predicting that row alone gives (`Ix1` form), `transform` gives the
+reduced distance to the predicted centroid, and no centroid is closer.  (The `DatasetBase`,
+`&DatasetBase` and `&ArrayBase` forms of `Predict` are all `default_target` + `predict_inplace`.) -/
+theorem predict_forms_agree (rd : List α → List α → α) (cs xs : List (List α)) (hk : cs ≠ []) :
+    predict rd cs xs = xs.map (predict1 rd cs) ∧
+    (transform rd cs xs).length = xs.length ∧
+    ∀ i (hi : i < xs.length),
+      predict1 rd cs xs[i] < cs.length ∧
+      (transform rd cs xs)[i]? = some (rd (cs.getD (predict1 rd cs xs[i]) []) xs[i]) ∧
+      ∀ j, j < cs.length → rd (cs.getD (predict1 rd cs xs[i]) []) xs[i] ≤ rd (cs.getD j []) xs[i] := by
+  refine ⟨by simp [predict, assign, predict1], by simp [transform, assign], ?_⟩
+  intro i hi
+  obtain ⟨h1, h2, h3, _⟩ := closest_spec rd cs xs[i] hk
+  refine ⟨h1, ?_, ?_⟩
+  · simp only [transform, assign, List.map_map, List.getElem?_map, List.getElem?_eq_getElem hi,
+      Option.map_some, Function.comp]
+    rw [h2]; rfl
+  · intro j hj
+    have := h3 j hj
+    rw [h2] at this
+    exact this
+
+example : predict (α := Int) (fun c x => (c.headD 0 - x.headD 0) * (c.headD 0 - x.headD 0))
+      [[0], [10]] [[1], [9], [5]] = [0, 1, 0] ∧
+    transform (α := Int) (fun c x => (c.headD 0 - x.headD 0) * (c.headD 0 - x.headD 0))
+      [[0], [10]] [[1], [9], [5]] = [1, 1, 25] := by decide
+
+/-- **`predict_inplace` on a caller-supplied buffer**: it answers exactly when the buffer has one
+cell per observation (the `assert_eq!`), and then every cell is overwritten by the prediction of
+its row — the result does not depend on what the buffer held. -/
+theorem predict_inplace_overwrites (rd : List α → List α → α) (cs xs : List (List α))
+    (buf : List Nat) :
+    (xs.length = buf.length → predictInplace rd cs xs buf = some (predict rd cs xs)) ∧
+    (xs.length ≠ buf.length → predictInplace rd cs xs buf = none) := by
+  constructor
+  · intro h
+    simp only [predictInplace, h, if_true, Option.some.injEq, predict, assign, List.map_map]
+    have : ∀ (l : List (List α)) (b : List Nat), l.length = b.length →
+        (l.zip b).map (fun q => predict1 rd cs q.1) = l.map (predict1 rd cs) := by
+      intro l
+      induction l with
+      | nil => intro b _; simp
+      | cons y ys ih =>
+        intro b hb
+        cases b with
+        | nil => simp at hb
+        | cons c b' =>
+          simp only [List.zip_cons_cons, List.map_cons, List.cons.injEq, true_and]
+          exact ih b' (by simpa using hb)
+    rw [this xs buf h]
+    simp [predict1, Function.comp_def]
+  · intro h
+    simp [predictInplace, h]
+
+example : predictInplace (α := Int) (fun c x => (c.headD 0 - x.headD 0) * (c.headD 0 - x.headD 0))
+      [[0], [10]] [[1], [9]] [7, 7] = some [0, 1] ∧
+    predictInplace (α := Int) (fun c x => (c.headD 0 - x.headD 0) * (c.headD 0 - x.headD 0))
+      [[0], [10]] [[1], [9]] [7] = none := by decide
+
 end AnyMetric
 
 section Field
@@ -256,6 +316,140 @@ example : (fit (α := Rat) sqL2 (fun _ _ => false) (fun _ => true) 1 [[0], [0], 
       [[[0]], [[10]]]).map (·.inertia) = some (275 / 12) ∧
     (fit (α := Rat) sqL2 (fun _ _ => false) (fun _ => true) 1 [[0], [0], [10]] 1
       [[[0]], [[10]]]).map (·.counts) = some [3] := by decide +kernel
+
+/-- **the update inside one Lloyd iteration**: centroid `j` after the iteration is, per coordinate,
+the mean of the rows whose nearest current centroid (first minimum) is `j`, together with the
+current centroid `j` ("replaces each centroid by the mean of its assigned points together with its
+previous position"), for any metric. -/
+theorem lloyd_step_is_mean_of_assigned (rd : List α → List α → α) (cs xs : List (List α)) (p : Nat)
+    (hc : ∀ c ∈ cs, c.length = p) (hx : ∀ x ∈ xs, x.length = p) (j : Nat) (hj : j < cs.length) :
+    (lloydStep rd xs cs).length = cs.length ∧
+    ∀ d, d < p → ((lloydStep rd xs cs).getD j []).getD d 0 =
+      (((members j xs (predict rd cs xs)).map (·.getD d 0)).sum + (cs.getD j []).getD d 0) /
+        (((members j xs (predict rd cs xs)).length : α) + 1) := by
+  obtain ⟨h1, _, h3⟩ := update_is_mean_with_old cs xs (predict rd cs xs) p hc hx j hj
+  exact ⟨h1, h3⟩
+
+example : lloydStep (α := Rat) sqL2 [[0], [1], [9]] [[0], [10]] = [[1 / 3], [19 / 2]] := by
+  decide +kernel
+
+/-- **what a budget of `m` iterations returns**: the `j`-th iterate of the Lloyd step from the initial
+matrix for some `1 ≤ j ≤ m`; the loop stops before the budget is used up only because the convergence
+test held at that iteration, and it held at no earlier one.  (The counter `n_iter` starts at zero for
+every restart: `runOnce` calls `fitLoop` with the full budget.) -/
+theorem fit_loop_is_iterate (rd : List α → List α → α) (conv : List (List α) → List (List α) → Bool)
+    (xs : List (List α)) (m : Nat) (cs : List (List α)) (hm : 1 ≤ m) :
+    ∃ j, 1 ≤ j ∧ j ≤ m ∧ fitLoop rd conv xs m cs = Nat.iterate (lloydStep rd xs) j cs ∧
+      (j < m → conv (Nat.iterate (lloydStep rd xs) (j - 1) cs)
+        (Nat.iterate (lloydStep rd xs) j cs) = true) ∧
+      ∀ i, i + 1 < j → conv (Nat.iterate (lloydStep rd xs) i cs)
+        (Nat.iterate (lloydStep rd xs) (i + 1) cs) = false := by
+  induction m generalizing cs with
+  | zero => omega
+  | succ f ih =>
+    by_cases hc : conv cs (lloydStep rd xs cs) = true
+    · refine ⟨1, le_refl _, by omega, ?_, fun _ => hc, fun i hi => by omega⟩
+      rw [fitLoop_conv _ _ _ _ _ hc]; rfl
+    · have hc' : conv cs (lloydStep rd xs cs) = false := by simpa using hc
+      cases f with
+      | zero =>
+        refine ⟨1, le_refl _, le_refl _, ?_, fun h => by omega, fun i hi => by omega⟩
+        rw [fitLoop_one]; rfl
+      | succ g =>
+        obtain ⟨j, h1, h2, e, hs, hn⟩ := ih (lloydStep rd xs cs) (by omega)
+        refine ⟨j + 1, by omega, by omega, ?_, ?_, ?_⟩
+        · rw [fitLoop_nconv rd conv xs g cs hc', e]; rfl
+        · intro hlt
+          have := hs (by omega)
+          obtain ⟨j', rfl⟩ : ∃ j', j = j' + 1 := ⟨j - 1, by omega⟩
+          simpa [Nat.iterate] using this
+        · intro i hi
+          cases i with
+          | zero => exact hc'
+          | succ i' => exact hn i' (by omega)
+
+example : fitLoop (α := Rat) sqL2 (fun a b => a == b) [[0], [2]] 5 [[1]] =
+    Nat.iterate (lloydStep sqL2 [[0], [2]]) 1 [[1]] := by decide +kernel
+
+/-- **`fit` returns a model** whenever there is at least one restart (`n_runs ≥ 1`) and every
+inertia is below `+∞` (always so over an ordered field; in IEEE arithmetic it fails exactly when the
+summed distances overflow — `Err(InertiaError)`). -/
+theorem fit_succeeds (rd : List α → List α → α) (conv : List (List α) → List (List α) → Bool)
+    (ltInf : α → Bool) (hl : ∀ x, ltInf x = true) (k : Nat) (xs : List (List α)) (budget : Nat)
+    (inits : List (List (List α))) (hne : inits ≠ []) :
+    ∃ f, fit rd conv ltInf k xs budget inits = some f := by
+  obtain ⟨b, hb⟩ := fitRuns_isSome rd conv ltInf hl xs budget inits hne
+  rw [fit, hb]
+  exact ⟨_, rfl⟩
+
+/-- **the returned run is the best of all restarts**: its reported inertia is at most the inertia
+(cost / n) of what any of the restarts returns. -/
+theorem fit_inertia_is_min (rd : List α → List α → α) (conv : List (List α) → List (List α) → Bool)
+    (ltInf : α → Bool) (hl : ∀ x, ltInf x = true) (k : Nat) (xs : List (List α)) (budget : Nat)
+    (inits : List (List (List α))) (f : Fitted α)
+    (h : fit rd conv ltInf k xs budget inits = some f) :
+    ∀ init ∈ inits, f.inertia ≤
+      cost rd (runOnce rd conv xs budget init).centroids xs / (xs.length : α) := by
+  unfold fit finish at h
+  cases hb : fitRuns rd conv ltInf xs budget inits with
+  | none => rw [hb] at h; simp at h
+  | some b =>
+    rw [hb] at h
+    simp only [Option.map_some, Option.some.injEq] at h
+    intro init hi
+    rw [← h, ← runOnce_inertia]
+    exact div_le_div_of_nonneg_right (fitRuns_min rd conv ltInf hl xs budget inits b hb init hi)
+      (Nat.cast_nonneg _)
+
+/-- **with restarts, too, a larger iteration budget never gives a higher cost** (squared-L2): the
+restarts of `fit` start from the same initial matrices whatever the budget (the initialisers draw
+from one RNG stream that the Lloyd loop does not touch), each restart's cost is antitone in the
+budget (`lloyd_cost_antitone`) and the minimum-inertia restart is returned, so the reported inertia
+and the within-cluster cost of the returned centroids for budget `m'` are at most those for any
+smaller budget `m ≥ 1` — for every number of restarts and every convergence test. -/
+theorem restarts_cost_antitone (conv : List (List α) → List (List α) → Bool)
+    (ltInf : α → Bool) (hl : ∀ x, ltInf x = true) (k p : Nat) (xs : List (List α))
+    (inits : List (List (List α))) (hk : 0 < k)
+    (hi : ∀ i ∈ inits, i.length = k ∧ ∀ c ∈ i, c.length = p) (hx : ∀ x ∈ xs, x.length = p)
+    (m m' : Nat) (h1 : 1 ≤ m) (h : m ≤ m') (f f' : Fitted α)
+    (hf : fit sqL2 conv ltInf k xs m inits = some f)
+    (hf' : fit sqL2 conv ltInf k xs m' inits = some f') :
+    f'.inertia ≤ f.inertia ∧ cost sqL2 f'.centroids xs ≤ cost sqL2 f.centroids xs := by
+  obtain ⟨init, hin, e, _, ei⟩ := fit_some sqL2 conv ltInf k xs m inits f hf
+  obtain ⟨hl', hd⟩ := hi init hin
+  have w : init ≠ [] := by intro h0; rw [h0] at hl'; simp at hl'; omega
+  have key : f'.inertia ≤ f.inertia := by
+    refine le_trans (fit_inertia_is_min sqL2 conv ltInf hl k xs m' inits f' hf' init hin) ?_
+    rw [ei, runOnce_inertia]
+    exact div_le_div_of_nonneg_right
+      (lloyd_cost_antitone conv p xs init w hd hx m m' h1 h) (Nat.cast_nonneg _)
+  refine ⟨key, ?_⟩
+  have e1 := inertia_describes_returned sqL2 conv ltInf k xs m inits f hf
+  have e2 := inertia_describes_returned sqL2 conv ltInf k xs m' inits f' hf'
+  rw [e1, e2] at key
+  by_cases hn : xs.length = 0
+  · have : xs = [] := List.length_eq_zero_iff.mp hn
+    subst this; simp [cost, assign, sumS]
+  · have hpos : (0 : α) < (xs.length : α) := by exact_mod_cast Nat.pos_of_ne_zero hn
+    exact (div_le_div_iff_of_pos_right hpos).mp key
+
+example : (fit (α := Rat) sqL2 (fun _ _ => false) (fun _ => true) 1 [[0], [0], [10]] 1
+      [[[10]], [[0]]]).map (·.inertia) = some (275 / 12) ∧
+    (fit (α := Rat) sqL2 (fun _ _ => false) (fun _ => true) 1 [[0], [0], [10]] 2
+      [[[10]], [[0]]]).map (·.inertia) = some (4275 / 192) := by decide +kernel
+
+/-- **initialised from the data ⇒ inside its bounding box**: if every initial centroid of every
+restart is a row of the data (what `Random`, k-means++ and k-means‖ return) and the rows lie in the
+box, so do the returned centroids. -/
+theorem centroids_in_bbox_of_data_rows (rd : List α → List α → α)
+    (conv : List (List α) → List (List α) → Bool) (ltInf : α → Bool) (k p : Nat)
+    (xs : List (List α)) (budget : Nat) (inits : List (List (List α))) (f : Fitted α)
+    (lo hi : Nat → α) (hk : 0 < k) (hi' : ∀ i ∈ inits, i.length = k ∧ ∀ c ∈ i, c ∈ xs)
+    (hx : ∀ x ∈ xs, x.length = p ∧ InBox lo hi x)
+    (h : fit rd conv ltInf k xs budget inits = some f) :
+    ∀ c ∈ f.centroids, InBox lo hi c :=
+  centroids_in_bbox rd conv ltInf k p xs budget inits f lo hi hk
+    (fun i hi0 => ⟨(hi' i hi0).1, fun c hc => hx c ((hi' i hi0).2 c hc)⟩) hx h
 
 end Field
 
